@@ -116,6 +116,10 @@ class Case(object):
                     t = "%d%s" % (self.rng.randrange(100), t)
             elif atom == "n":
                 t = self.rng.choice(NONASCII) + (u" é%d" % self.rng.randrange(100) if self.rng.random() < 0.5 else u"")
+            elif atom == "f":        # the line STARTS with U+FEFF (a byte-order mark when it opens the content)
+                t = u"\ufeff" + self.rng.choice([u"", u"#!/bin/sh", u"key = value", u"\ufeff", u" x", u"é"])
+            elif atom == "g":        # U+FEFF elsewhere in the line (control)
+                t = self.rng.choice([u"a\ufeffb", u"ends with \ufeff", u" \ufeff", u"x\ufeff\ufeff"])
             elif atom == "L":
                 n = self.longlen + self.rng.randrange(0, 4097)
                 unit = self.rng.choice(["0123456789abcdef", u"long é line ", "x"])
